@@ -189,6 +189,7 @@ def tlc(cwd, module, cfg=None, workers=None, timeout=900, simulate=None, depth=N
     if dfs:
         java.append("-Dtlc2.tool.queue.IStateQueue=StateDeque")
     meta = tempfile.mkdtemp(prefix="meta-", dir=cwd)
+    java.append("-Djava.io.tmpdir=" + meta)   # TLC's own scratch directory stays inside the run's directory
     cmd = java + ["-cp", TLA_CP, "tlc2.TLC", "-workers", str(workers), "-metadir", meta, "-noGenerateSpecTE"]
     if cfg:
         cmd += ["-config", cfg]
